@@ -201,7 +201,9 @@ def _case(draw, maxdepth):
     # the return annotation of a scalar method may be a type variable that nothing binds (the result type is then unknown, the call
     # site is not)
     retvar = [k for k in ("Evt.val", "Jet.val", "Trk.val") if draw(st.integers(0, 5)) == 0]
-    return {"model": model, "stages": stages, "alias": draw(st.sampled_from(ALIASES)), "kinds": {k: v for k, v in kinds.items() if v != "plain"}, "retvar": retvar}
+    return {"model": model, "stages": stages, "alias": draw(st.sampled_from(ALIASES)), "kinds": {k: v for k, v in kinds.items() if v != "plain"}, "retvar": retvar,
+            # history of the stream: metadata calls before / between the operators (incl. ones that record nothing new)
+            "meta": draw(st.lists(st.sampled_from([None, None, None, "q-empty", "q-once", "q-repeat", "m"]), min_size=2, max_size=2))}
 
 
 def strategy(tier):
@@ -465,8 +467,23 @@ def check(case) -> Result:
 
     s = DS(ns["Evt"])
     emitted = []
+
+    def _meta(s, kind):
+        if kind:
+            r.labels.append("metadata-call-in-history:" + kind)
+        if kind == "q-empty":
+            return s.QMetaData({})
+        if kind == "q-once":
+            return s.QMetaData({"calib": "v1"})
+        if kind == "q-repeat":
+            return s.QMetaData({"calib": "v1"}).QMetaData({"calib": "v1"})
+        if kind == "m":
+            return s.MetaData({"m": 1})
+        return s
+
     try:
-        for (op, p, body), w in zip(case["stages"], written):
+        for i, ((op, p, body), w) in enumerate(zip(case["stages"], written)):
+            s = _meta(s, (case.get("meta") or [None, None])[min(i, 1)])
             s = getattr(s, op)(w)
             emitted.append(s.query_ast.args[1])
     except ValueError as e:
